@@ -1,5 +1,206 @@
-import Bkl
+/-
+  C12 — "$repeat expands to exactly n indexed copies (cartesian product for named counts)".
+  Model: `repeatInt`, `repeatGen`, `repeatDoc` and the `$repeat` branches of `process2`
+  (Bkl/Process2.lean).  Specification side (`countOf`, `tuples`, `tupleOk`, `bindTuple`,
+  `repeatEc1`, `namedCounts`, `noSingleKey`) is defined in BklProofs/Lemmas/Repeat.lean.
+-/
+import BklProofs.Lemmas.Repeat
 namespace Bkl
-/-- placeholder until the property theorems land -/
-theorem C12_placeholder : validate (.int 1) = .ok () := by simp [validate]; rfl
+
+/-! ## document level, integer count -/
+
+/-- exactly `n` copies (none for `n ≤ 0`), in index order, the `i`-th bound to `$repeat ↦ i` -/
+theorem C12_doc_int (data : Val) (ec : Vars) (n : Int) :
+    repeatGen data ec (.int n)
+      = .ok ((List.range n.toNat).map fun (i : Nat) => (data, fset ec "$repeat" (.int i))) := by
+  simp [repeatGen, repeatInt, pure, Except.pure]
+
+theorem C12_doc_int_length (data : Val) (ec : Vars) (n : Int) :
+    ∃ pairs, repeatGen data ec (.int n) = .ok pairs ∧ pairs.length = n.toNat :=
+  ⟨_, C12_doc_int data ec n, by simp⟩
+
+/-- tests -/
+example : repeatGen (.str "d") [] (.int 3)
+    = .ok [(.str "d", [("$repeat", .int 0)]), (.str "d", [("$repeat", .int 1)]),
+           (.str "d", [("$repeat", .int 2)])] := by
+  rw [C12_doc_int]; exact congrArg Except.ok (by decide)
+example : repeatGen (.str "d") [] (.int (-2)) = .ok [] := by
+  rw [C12_doc_int]; exact congrArg Except.ok (by decide)
+
+/-! ## document level, named counts -/
+
+/-- the generated documents are exactly the index tuples of the cartesian product, in
+    lexicographic order (first name slowest); the context of the `j`-th one is `ec1`
+    (`ec` plus the declared counts under `$repeat.<name>`) with `$repeat:<name> ↦ index`
+    for every component of the `j`-th tuple -/
+theorem C12_doc_named (data : Val) (ec : Vars) (rs : Fields)
+    (h : ∀ kv ∈ rs, ∃ n, kv.2 = Val.int n) :
+    repeatGen data ec (.map rs)
+      = .ok ((tuples (rs.map fun kv => (kv.1, countOf kv.2))).map fun t =>
+          (data, t.foldl (fun e ni => fset e ("$repeat:" ++ ni.1) (.int ni.2)) (repeatEc1 ec rs))) := by
+  rw [repeatGen_map_eq, foldlM_repeatStep rs h]
+  simp [namedCounts, bindTuple]
+
+/-- `repeatEc1` is literally the fold `repeatGen` performs -/
+theorem C12_doc_named_ec1 (ec : Vars) (rs : Fields) :
+    repeatEc1 ec rs = rs.foldl (fun e (kv : String × Val) => fset e ("$repeat." ++ kv.1) kv.2) ec :=
+  (repeatEc1_eq_foldl ec rs).symm
+
+/-- `ec1` carries each declared count under `$repeat.<name>` (distinct names) and leaves every
+    other variable alone -/
+theorem C12_doc_named_ec1_get (ec : Vars) (rs : Fields) (hnd : (rs.map (·.1)).Nodup) :
+    (∀ k v, (k, v) ∈ rs → fget (repeatEc1 ec rs) ("$repeat." ++ k) = some v) ∧
+    (∀ x, (∀ kv ∈ rs, "$repeat." ++ kv.1 ≠ x) → fget (repeatEc1 ec rs) x = fget ec x) :=
+  ⟨fun k v h => fget_repeatEc1_mem rs k v ec hnd h, fun x h => fget_repeatEc1_other rs x ec h⟩
+
+example : (([("a", .int 2), ("b", .int 3)] : Fields).map (·.1)).Nodup := by decide
+
+/-- the number of generated documents is the product of the counts -/
+theorem C12_doc_named_length (data : Val) (ec : Vars) (rs : Fields)
+    (h : ∀ kv ∈ rs, ∃ n, kv.2 = Val.int n) :
+    ∃ pairs, repeatGen data ec (.map rs) = .ok pairs ∧
+      pairs.length = (rs.map fun kv => countOf kv.2).prod := by
+  refine ⟨_, C12_doc_named data ec rs h, ?_⟩
+  rw [List.length_map, tuples_length, List.map_map]
+  rfl
+
+/-- every admissible tuple occurs exactly once: no duplicates, `∏ counts` of them, and
+    membership is "names as declared, every index below its count" -/
+theorem C12_doc_named_nodup (l : List (String × Nat)) :
+    (tuples l).Nodup ∧ (tuples l).length = (l.map (·.2)).prod ∧
+    ∀ t, t ∈ tuples l ↔ tupleOk t l :=
+  ⟨tuples_nodup l, tuples_length l, fun _ => mem_tuples⟩
+
+/-- non-vacuity and a test: `{a: 2, b: 3}` gives 6 documents, `a` slowest -/
+example : ∀ kv ∈ ([("a", .int 2), ("b", .int 3)] : Fields), ∃ n, kv.2 = Val.int n := by
+  intro kv h; simp at h; rcases h with rfl | rfl <;> exact ⟨_, rfl⟩
+example : tuples [("a", 2), ("b", 3)]
+    = [[("a",0),("b",0)], [("a",0),("b",1)], [("a",0),("b",2)],
+       [("a",1),("b",0)], [("a",1),("b",1)], [("a",1),("b",2)]] := by decide
+example : (repeatGen .null [] (.map [("a", .int 2), ("b", .int 1)])) =
+    .ok [(.null, [("$repeat.a", .int 2), ("$repeat.b", .int 1), ("$repeat:a", .int 0), ("$repeat:b", .int 0)]),
+         (.null, [("$repeat.a", .int 2), ("$repeat.b", .int 1), ("$repeat:a", .int 1), ("$repeat:b", .int 0)])] := by
+  rw [C12_doc_named _ _ _ (by intro kv h; simp at h; rcases h with rfl | rfl <;> exact ⟨_, rfl⟩)]
+  exact congrArg Except.ok (by decide)
+
+/-! ## non-integer counts are errors -/
+
+/-- `$repeat` must be an integer or a map … -/
+theorem C12_nonint_error (data : Val) (ec : Vars) (v : Val)
+    (h1 : ∀ n, v ≠ .int n) (h2 : ∀ rs, v ≠ .map rs) :
+    repeatGen data ec v = .error .invalidRepeat := by
+  cases v <;> first | rfl | exact absurd rfl (h1 _) | exact absurd rfl (h2 _)
+
+/-- … and every named count must be an integer -/
+theorem C12_nonint_error_named (data : Val) (ec : Vars) (rs : Fields)
+    (h : ∃ kv ∈ rs, ∀ n, kv.2 ≠ Val.int n) :
+    repeatGen data ec (.map rs) = .error .invalidRepeat := by
+  rw [repeatGen_map_eq]; exact foldlM_repeatStep_bad rs h _
+
+example : (∀ n, Val.str "3" ≠ .int n) ∧ (∀ rs, Val.str "3" ≠ .map rs) :=
+  ⟨fun _ h => (by cases h), fun _ h => (by cases h)⟩
+example : ∃ kv ∈ ([("a", .int 2), ("b", .str "x")] : Fields), ∀ n, kv.2 ≠ Val.int n :=
+  ⟨("b", .str "x"), by simp, fun _ h => (by cases h)⟩
+
+/-- nested `{… "$repeat": r …}` inside a list with `r` not an integer: `invalidType`.
+    (No side condition on `$encode` is needed: a map that has a `$repeat` key is never a
+    single-key `{$encode: …}` entry.) -/
+theorem C12_nonint_error_nested (fuel : Nat) (docs : List Val) (root : Val) (ec : Vars)
+    (m : Fields) (r : Val) (hr : fget m "$repeat" = some r) (hni : ∀ n, r ≠ .int n) :
+    process2 (fuel + 1) docs root ec (.list [.map m]) = .error .invalidType := by
+  have hp := popListMapValue_none "$encode" [.map m]
+    (noSingleKey_of_other_key (k := "$encode") (k' := "$repeat") (by decide) hr)
+  rw [process2]
+  simp only [hp, bind, Except.bind, Val.isNull, Bool.not_true, Bool.false_eq_true, if_false,
+    List.foldlM_cons, List.foldlM_nil, hr]
+  cases r <;> first | rfl | exact absurd rfl (hni _)
+
+example : fget [("$repeat", Val.str "2"), ("x", .int 1)] "$repeat" = some (.str "2")
+    ∧ ∀ n, Val.str "2" ≠ .int n := ⟨by decide, fun _ h => (by cases h)⟩
+
+/-! ## nested repeat inside a list -/
+
+/-- evaluate the body (the map without its `$repeat` key) once per index `0 … n-1`, in order,
+    with `$repeat ↦ i`; the first failing copy aborts; null results are dropped -/
+theorem C12_list_nested (fuel : Nat) (docs : List Val) (root : Val) (ec : Vars)
+    (m : Fields) (n : Int) (hr : fget m "$repeat" = some (.int n)) :
+    process2 (fuel + 1) docs root ec (.list [.map m])
+      = (do
+          let vs ← (List.range n.toNat).mapM fun (i : Nat) =>
+            process2 fuel docs root (fset ec "$repeat" (.int i)) (.map (fdel m "$repeat"))
+          pure (.list (vs.filter fun v => !v.isNull))) := by
+  have hp := popListMapValue_none "$encode" [.map m]
+    (noSingleKey_of_other_key (k := "$encode") (k' := "$repeat") (by decide) hr)
+  rw [process2]
+  simp only [hp, ok_bind, isNull_null, Bool.not_true, Bool.false_eq_true, if_false,
+    List.foldlM_cons, List.foldlM_nil, hr, bind_pure]
+  rw [foldlM_collect (fun i => process2 fuel docs root (fset ec "$repeat" (.int (Int.ofNat i)))
+    (.map (fdel m "$repeat")))]
+  simp only [List.nil_append, bind_assoc, pure_bind]
+  rfl
+
+/-- hence exactly `n` entries when no copy errors or evaluates to null -/
+theorem C12_list_nested_exact (fuel : Nat) (docs : List Val) (root : Val) (ec : Vars)
+    (m : Fields) (n : Int) (g : Nat → Val) (hr : fget m "$repeat" = some (.int n))
+    (hg : ∀ i, i < n.toNat →
+      process2 fuel docs root (fset ec "$repeat" (.int i)) (.map (fdel m "$repeat")) = .ok (g i))
+    (hnn : ∀ i, i < n.toNat → (g i).isNull = false) :
+    process2 (fuel + 1) docs root ec (.list [.map m]) = .ok (.list ((List.range n.toNat).map g))
+    ∧ ((List.range n.toNat).map g).length = n.toNat := by
+  refine ⟨?_, by simp⟩
+  rw [C12_list_nested fuel docs root ec m n hr,
+    mapM_ok_of_forall _ g _ (fun i hi => hg i (List.mem_range.1 hi))]
+  simp only [bind, Except.bind, pure, Except.pure]
+  congr 2
+  rw [List.filter_eq_self]
+  intro v hv
+  obtain ⟨i, hi, rfl⟩ := List.mem_map.1 hv
+  simp [hnn i (List.mem_range.1 hi)]
+
+/-- non-vacuity of `hg`/`hnn` (with `g i = {v: 7}`) -/
+example : ∀ i : Nat, i < (2 : Int).toNat →
+    process2 2 [] .null (fset [] "$repeat" (.int i))
+      (.map (fdel [("$repeat", .int 2), ("v", .int 7)] "$repeat")) = .ok (.map [("v", .int 7)]) := by
+  intro i _
+  simp [process2, process2String.eq_1, interpBody, fget, fdel, fset, Val.isNull, bind,
+    Except.bind, pure, Except.pure]
+
+/-- test: `[{$repeat: 3, v: "$repeat"}]` is `[{v:0},{v:1},{v:2}]` -/
+example : process2 3 [] .null [] (.list [.map [("$repeat", .int 3), ("v", .str "$repeat")]])
+    = .ok (.list [.map [("v", .int 0)], .map [("v", .int 1)], .map [("v", .int 2)]]) := by
+  simp [process2, process2String.eq_1, interpBody, popListMapValue, fget, fdel, fset, getVar,
+    List.range, List.range.loop, Val.isNull, bind, Except.bind, pure, Except.pure]
+
+/-! ## no `$repeat`: exactly one document -/
+
+theorem C12_repeatDoc_no_repeat_map (kvs : Fields) (ec : Vars) (h : fget kvs "$repeat" = none) :
+    repeatDoc (.map kvs) ec = .ok [(.map kvs, ec)] := by
+  simp [repeatDoc, h, pure, Except.pure]
+
+theorem C12_repeatDoc_no_repeat_list (xs : List Val) (ec : Vars) (h : noSingleKey "$repeat" xs) :
+    repeatDoc (.list xs) ec = .ok [(.list xs, ec)] := by
+  simp [repeatDoc, popListMapValue_none _ _ h, Val.isNull, pure, Except.pure, bind, Except.bind]
+
+theorem C12_repeatDoc_no_repeat_scalar (v : Val) (ec : Vars)
+    (h1 : ∀ kvs, v ≠ .map kvs) (h2 : ∀ xs, v ≠ .list xs) :
+    repeatDoc v ec = .ok [(v, ec)] := by
+  cases v <;> first | rfl | exact absurd rfl (h1 _) | exact absurd rfl (h2 _)
+
+example : fget [("a", Val.int 1)] "$repeat" = none := by decide
+example : noSingleKey "$repeat" [.map [("a", .int 1)], .int 2, .map [("$repeat", .int 2), ("b", .null)]] := by
+  intro x hx m e hl
+  simp at hx
+  rcases hx with rfl | rfl | rfl <;> cases e <;> first | rfl | (simp at hl)
+
+/-- and with a `$repeat: n` key a map document yields the `n` indexed copies of the rest -/
+theorem C12_repeatDoc_map_int (kvs : Fields) (ec : Vars) (n : Int)
+    (h : fget kvs "$repeat" = some (.int n)) :
+    repeatDoc (.map kvs) ec
+      = .ok ((List.range n.toNat).map fun (i : Nat) =>
+          (.map (fdel kvs "$repeat"), fset ec "$repeat" (.int i))) := by
+  simp only [repeatDoc, h]
+  exact C12_doc_int _ ec n
+
+example : fget [("$repeat", Val.int 2), ("a", .int 1)] "$repeat" = some (.int 2) := by decide
+
 end Bkl
